@@ -452,3 +452,43 @@ def reachable_functions(ctx, S, f, depth=10, seen=None):
         if tgt is not None:
             reachable_functions(ctx, S, tgt, depth - 1, seen)
     return seen
+
+
+def transaction_premises(ctx, chk, rule):
+    """The index rows written by a statement become visible/durable only at COMMIT -- the premise of every commit-ordering rule.  In
+    database.get_session: pysqlite's implicit transaction handling is switched off and an explicit BEGIN is emitted for every
+    transaction; the session does not autocommit/autoflush; the only PRAGMA issued is journal_mode=wal (nothing that weakens atomic,
+    durable commits such as synchronous=OFF, journal_mode=OFF/MEMORY, locking/ignore_check options)."""
+    prog = ctx.prog
+    gs = prog.fn('database:get_session')
+    src_nodes = list(ast.walk(gs.node))
+    iso = [n for n in src_nodes if isinstance(n, ast.Assign) and isinstance(n.targets[0], ast.Attribute) and n.targets[0].attr == 'isolation_level']
+    begins = []
+    for n in src_nodes:
+        if isinstance(n, ast.FunctionDef) and n is not gs.node:
+            decos = ' '.join(norm(d) for d in n.decorator_list)
+            if "'begin'" in decos and 'listens_for' in decos:
+                begins += [c for c in ast.walk(n) if isinstance(c, ast.Call) and isinstance(c.func, ast.Attribute) and c.func.attr == 'execute' and "'BEGIN'" in norm(c).upper().replace('"', "'")]
+    pragmas = []
+    for n in src_nodes:
+        if isinstance(n, ast.Constant) and isinstance(n.value, str) and 'PRAGMA' in n.value.upper():
+            pragmas.append(n)
+    sm = [c for c in src_nodes if isinstance(c, ast.Call) and norm(c.func) == 'sessionmaker']
+    ok_iso = len(iso) == 1 and isinstance(iso[0].value, ast.Constant) and iso[0].value.value is None
+    ok_begin = len(begins) >= 1
+    bad_pragmas = [p_ for p_ in pragmas if p_.value.upper().replace(' ', '').rstrip(';') != 'PRAGMAJOURNAL_MODE=WAL']
+    ok_sm = len(sm) == 1 and all(not (k.arg in ('autocommit', 'autoflush') and not (isinstance(k.value, ast.Constant) and k.value.value is False)) for k in sm[0].keywords) \
+        and {'autocommit', 'autoflush'} <= {k.arg for k in sm[0].keywords}
+    if not ok_iso or not ok_begin:
+        chk.bad(rule, gs.qualname, 'explicit BEGIN', 'transactions are not opened by an explicit BEGIN with pysqlite\'s implicit handling switched off (isolation_level = None + a "begin" listener that executes BEGIN): '
+                'without it every statement commits on its own, so index rows become visible and durable at INSERT/UPDATE time, before the pack bytes are flushed and before the code\'s COMMIT',
+                where=f'{gs.module.relpath}:{gs.lineno}')
+    elif bad_pragmas:
+        chk.bad(rule, gs.qualname, bad_pragmas[0].value, 'a PRAGMA other than journal_mode=wal is issued on the index connection: options such as synchronous=OFF or journal_mode=OFF/MEMORY give up atomic, durable '
+                'commits, the premise of every commit-ordering rule', where=f'{gs.module.relpath}:{bad_pragmas[0].lineno}')
+    elif not ok_sm:
+        chk.bad(rule, gs.qualname, norm(sm[0])[:100] if sm else 'sessionmaker', 'the session is not created with autocommit=False and autoflush=False: statements could reach the index outside the commit points the code controls',
+                where=f'{gs.module.relpath}:{(sm[0].lineno if sm else gs.lineno)}')
+    else:
+        chk.ok(rule, gs.qualname, 'isolation_level=None; BEGIN listener; PRAGMA journal_mode=wal only; autocommit=False, autoflush=False',
+               detail='index changes become visible and durable only at the COMMITs the code issues (WAL: readers keep their snapshot)')
